@@ -661,6 +661,10 @@ def build_unit(repo, unit, verif_root, twin=False):
     for generated line i+1."""
     tpath = os.path.join(verif_root, unit["template"])
     template = open(tpath, encoding="utf-8").read()
+
+    def _inc(m):
+        return open(os.path.join(os.path.dirname(tpath), m.group(1)), encoding="utf-8").read()
+    template = re.sub(r"^[ \t]*//@INCLUDE[ \t]+(\S+)[ \t]*$", _inc, template, flags=re.M)
     report = []
     pieces = {}
     for ex in unit.get("extract", []):
